@@ -182,10 +182,10 @@ Proof. exact multi_restrictions_spec. Qed.
 Print Assumptions C10_multi_restrictions.
 
 (* a model that offers a capable entry for every band survives preselect_multiband_amps *)
-Theorem C10_multi_preselect_keeps : forall lib groups ext g bts sel,
-  NoDup (map g_name groups) -> In g groups -> In (g_name g) sel ->
+Theorem C10_multi_preselect_keeps : forall lib groups ext g bts restr0 sel,
+  NoDup (map g_name groups) -> In g groups -> In (g_name g) restr0 -> In (g_name g) sel ->
   Forall (band_ok lib g true ext) bts ->
-  exists sel', preselect lib groups ext sel bts = Ok sel' /\ In (g_name g) sel'.
+  exists sel', preselect lib groups ext restr0 sel bts = Ok sel' /\ In (g_name g) sel'.
 Proof. exact preselect_keeps. Qed.
 Print Assumptions C10_multi_preselect_keeps.
 
@@ -204,17 +204,47 @@ Theorem C10_multi_capable : forall nd prev next lib groups maxl ext bts g,
 Proof. exact multi_capable. Qed.
 Print Assumptions C10_multi_capable.
 
-(* full statement "every band's choice belongs to a permitted multiband model" is false of the faithful model
-   (finding F-multiband-leak): mA = [c_ok, l0] allowed, mB = [c_good, l0] not allowed; l0 pulls mB into the
-   preselection and the C band gets c_good *)
-Theorem C10_multi_pick_permitted_refuted :
-  exists nd prev next lib groups maxl ext bts mr redfa bmin bmax gain pt nf s red,
-    n_variety nd = ""%string /\ In (bmin, bmax, gain, pt) bts /\
-    multi_redfa nd prev next lib groups ext bts = Ok (mr, redfa) /\
-    band_select lib redfa prev maxl bmin bmax gain pt ext nf = Ok (s, red) /\
-    forall g, In g groups -> In (g_name g) mr -> ~ In (a_name s) (g_members g).
-Proof. exact multi_pick_permitted_refuted. Qed.
-Print Assumptions C10_multi_pick_permitted_refuted.
+(* the preselection never leaves the permitted models (and is not empty once a band has been processed) *)
+Theorem C10_multi_preselect_within : forall lib groups ext restr0 bts sel sel',
+  (forall m, In m sel -> In m restr0) ->
+  preselect lib groups ext restr0 sel bts = Ok sel' ->
+  (forall m, In m sel' -> In m restr0) /\ (bts <> [] -> sel' <> []).
+Proof. exact preselect_within. Qed.
+Print Assumptions C10_multi_preselect_within.
+
+(* every band's choice belongs to a permitted multiband model, provided every permitted model has an entry for the
+   band (otherwise restrictions_edfa is empty for the band and set_one_amplifier falls back to the whole library) *)
+Theorem C10_multi_pick_permitted : forall nd prev next lib groups maxl ext bts mr redfa bmin bmax gain pt nf s red,
+  n_variety nd = ""%string -> In (bmin, bmax, gain, pt) bts ->
+  multi_redfa nd prev next lib groups ext bts = Ok (mr, redfa) ->
+  (forall g, In g groups -> In (g_name g) mr -> exists t, In t (g_members g) /\ covers_name lib bmin bmax t = true) ->
+  band_select lib redfa prev maxl bmin bmax gain pt ext nf = Ok (s, red) ->
+  exists g, In g groups /\ In (g_name g) mr /\ In (a_name s) (g_members g).
+Proof. exact multi_pick_permitted. Qed.
+Print Assumptions C10_multi_pick_permitted.
+
+(* the designed type_variety is taken (find_type_variety) among the models of the whole library that list every
+   band's choice; it is a permitted one exactly when no other model lists the same entries *)
+Theorem C10_multi_type : forall groups chosen m,
+  In m (common_groups groups chosen) <->
+  exists g, In g groups /\ g_name g = m /\ forall t, In t chosen -> In t (g_members g).
+Proof. exact common_groups_spec. Qed.
+Print Assumptions C10_multi_type.
+
+(* regression of the repaired defect on the model: mA = [c_ok, l0] allowed, mB = [c_good, l0] not allowed; the C band
+   gets c_ok although c_good is quieter, and the only common model is mA *)
+Example ex_multi_no_leak :
+  match multi_redfa (mkNode "" []) NOther NOther w_mlib w_groups (5 # 2)
+                    [(187000, 190000, 20, 18); (191300, 196000, 20, 18)] with
+  | Ok (mr, redfa) =>
+      mr = ["mA"]%string /\
+      match band_select w_mlib redfa NOther (1 # 4000) 191300 196000 20 18 (5 # 2) w_nf with
+      | Ok (s, _) => a_name s = "c_ok"%string /\ common_groups w_groups ["l0"; "c_ok"]%string = ["mA"]%string
+      | Err _ => False
+      end
+  | Err _ => False
+  end.
+Proof. vm_compute. repeat split. Qed.
 
 (* non-vacuity of C10_multi_capable: mA is permitted and capable in both bands *)
 Example ex_multi_hyp :
@@ -230,3 +260,15 @@ Proof.
   - exists "c_ok"%string, (mkAmp "c_ok" false false true 191250 196150 15 25 21 false).
     repeat split; try (cbn; tauto); try discriminate; reflexivity.
 Qed.
+
+(* full statement "the designed type_variety is a permitted multiband model" is false of the faithful model
+   (finding F-multiband-type): mX = [c_ok, l0] is not allowed, mA = [l0, c_ok] is; both list the two choices,
+   find_type_variety may name the node mX *)
+Theorem C10_multi_type_permitted_refuted :
+  exists nd prev next bands lib groups chosen m g,
+    n_variety nd = ""%string /\
+    In g groups /\ In (g_name g) (multi_restrictions nd prev next bands lib groups) /\
+    (forall t, In t chosen -> In t (g_members g)) /\
+    In m (common_groups groups chosen) /\ ~ In m (multi_restrictions nd prev next bands lib groups).
+Proof. exact multi_type_permitted_refuted. Qed.
+Print Assumptions C10_multi_type_permitted_refuted.
